@@ -3,6 +3,7 @@ Key.transpose_key; the driver adds the transpose-back differential."""
 from vmon import gen
 from vmon.checks.common import obs, fail, both_views, random_prefix, apply_prefix
 
+SPLIT_WAITS = "seq"   # worker: every fifth case is built from relative messages with rests split into adjacent waits
 PROP = "C14"
 ALSO = ("C20",)  # Key.transpose_key's contract speaks for C20; a key that becomes undefined is a C14 violation too
 MONITORS = ["transpose"]
